@@ -15,6 +15,7 @@
 (*   oper     _OPERATIVE_CONFIG  set of [scope, sel, param, val]            *)
 (*   locked   _CONFIG_IS_LOCKED                                             *)
 (*   usaved   the `config_was_locked` locals of the open unlock_config()s   *)
+(*   interactive _INTERACTIVE_MODE                                          *)
 (*   singles  _SINGLETONS        set of [key, obj]                          *)
 (*   consts   _CONSTANTS         set of [name, val] (gin.REQUIRED implicit) *)
 (*   hooks    _FINALIZE_HOOKS    user hooks (sequence of hook descriptors)  *)
@@ -43,6 +44,10 @@ CONSTANTS
   MaxBindings,  \* bound on Cardinality(cfg)
   Enabled,      \* set of action names enabled in this model
   NameOrder,    \* all parameter names in a fixed order (TLC cannot compare strings)
+  HookUniverse, \* finalize hooks a behaviour may register: [id, rets, raises]
+  BindApis,     \* binding API paths explored: "tuple", "string", "text", "block"
+  FreshConfs,   \* descriptors that Register may add during a behaviour
+  ConstNames,   \* names DefineConstant may use (sequences of components)
   CallsWithReq, \* whether Call explores gin.REQUIRED markers passed by the caller
   DevKwEval     \* TRUE models the pre-fix behaviour F6 (keyword-overridden refs evaluated)
 
@@ -59,9 +64,9 @@ CONSTANTS
        body  : "record" | "macro" | "const" | "singleton"
        api   : "configurable" | "external" | "register" ] *)
 
-VARIABLES reg, cfg, stack, okeys, oper, locked, usaved, singles, consts, hooks, out
+VARIABLES reg, cfg, stack, okeys, oper, locked, usaved, interactive, singles, consts, hooks, out
 
-vars == <<reg, cfg, stack, okeys, oper, locked, usaved, singles, consts, hooks, out>>
+vars == <<reg, cfg, stack, okeys, oper, locked, usaved, interactive, singles, consts, hooks, out>>
 
 ------------------------------------------------------------------------------
 (* value constructors *)
@@ -332,26 +337,26 @@ NoOut == [op |-> "none"]
 Init ==
   /\ reg \in InitRegs
   /\ cfg = <<>> /\ stack = << <<>> >> /\ okeys = {} /\ oper = {}
-  /\ locked = FALSE /\ usaved = <<>> /\ singles = {} /\ consts = {} /\ hooks = <<>>
+  /\ locked = FALSE /\ usaved = <<>> /\ interactive = FALSE /\ singles = {} /\ consts = {} /\ hooks = <<>>
   /\ out = NoOut
 
 \* bind_parameter (1032-1078)
-Bind(scope, c, p, v) ==
+Bind(api, scope, c, p, v) ==
   /\ "Bind" \in Enabled
   /\ c \in reg /\ p \in BindNames(c)
   /\ IF locked
-     THEN /\ out' = [op |-> "Bind", scope |-> scope, sel |-> c.sel, param |-> p, val |-> v,
+     THEN /\ out' = [op |-> "Bind", api |-> api, scope |-> scope, sel |-> c.sel, param |-> p, val |-> v,
                        status |-> "RuntimeError", why |-> "locked"]
           /\ UNCHANGED cfg
      ELSE IF BindVerdict(c, p) # "ok"
-     THEN /\ out' = [op |-> "Bind", scope |-> scope, sel |-> c.sel, param |-> p, val |-> v,
+     THEN /\ out' = [op |-> "Bind", api |-> api, scope |-> scope, sel |-> c.sel, param |-> p, val |-> v,
                        status |-> "ValueError", why |-> BindVerdict(c, p)]
           /\ UNCHANGED cfg
      ELSE /\ HasKey(cfg, scope, c.sel, p) \/ Len(cfg) < MaxBindings
           /\ cfg' = CfgPut(cfg, [scope |-> scope, sel |-> c.sel, param |-> p, val |-> v])
-          /\ out' = [op |-> "Bind", scope |-> scope, sel |-> c.sel, param |-> p, val |-> v,
+          /\ out' = [op |-> "Bind", api |-> api, scope |-> scope, sel |-> c.sel, param |-> p, val |-> v,
                        status |-> "ok", why |-> "ok"]
-  /\ UNCHANGED <<reg, stack, okeys, oper, locked, usaved, singles, consts, hooks>>
+  /\ UNCHANGED <<reg, stack, okeys, oper, locked, usaved, interactive, singles, consts, hooks>>
 
 \* config_scope (1261-1342): how |-> "name" (one or more components appended),
 \* "list" (replace), "clear" (None / ''), "invalid" (bad name: pushed, then popped by finally)
@@ -369,7 +374,7 @@ EnterScope(how, comps) ==
                            /\ out' = [op |-> "EnterScope", how |-> how, comps |-> comps, status |-> "ok"]
        [] how = "invalid" -> /\ UNCHANGED stack                                \* push, raise, finally: pop
                              /\ out' = [op |-> "EnterScope", how |-> how, comps |-> comps, status |-> "ValueError"]
-  /\ UNCHANGED <<reg, cfg, okeys, oper, locked, usaved, singles, consts, hooks>>
+  /\ UNCHANGED <<reg, cfg, okeys, oper, locked, usaved, interactive, singles, consts, hooks>>
 
 \* leaving a block, normally or because the body raised: the finally pops (1341-1342)
 ExitScope(byException) ==
@@ -377,7 +382,7 @@ ExitScope(byException) ==
   /\ Len(stack) > 1
   /\ stack' = SubSeq(stack, 1, Len(stack) - 1)
   /\ out' = [op |-> "ExitScope", byException |-> byException, status |-> "ok"]
-  /\ UNCHANGED <<reg, cfg, okeys, oper, locked, usaved, singles, consts, hooks>>
+  /\ UNCHANGED <<reg, cfg, okeys, oper, locked, usaved, interactive, singles, consts, hooks>>
 
 \* a configurable is called from Python
 Call(c, call) ==
@@ -387,7 +392,7 @@ Call(c, call) ==
      /\ okeys' = r.s.okeys /\ oper' = r.s.oper /\ singles' = r.s.singles
      /\ out' = [op |-> "Call", sel |-> c.sel, pargs |-> call.pargs, ckw |-> call.kw, status |-> r.status, delivered |-> r.delivered, va |-> r.va, kw |-> r.kw,
                 missing |-> r.missing, ran |-> r.ran, evals |-> r.s.evals]
-  /\ UNCHANGED <<reg, cfg, stack, locked, usaved, consts, hooks>>
+  /\ UNCHANGED <<reg, cfg, stack, locked, usaved, interactive, consts, hooks>>
 
 \* clear_config (1004-1029)
 Clear(clearConstants) ==
@@ -395,19 +400,159 @@ Clear(clearConstants) ==
   /\ cfg' = <<>> /\ okeys' = {} /\ oper' = {} /\ singles' = {} /\ locked' = FALSE
   /\ consts' = IF clearConstants THEN {} ELSE consts
   /\ out' = [op |-> "Clear", clearConstants |-> clearConstants, status |-> "ok"]
-  /\ UNCHANGED <<reg, stack, usaved, hooks>>
+  /\ UNCHANGED <<reg, stack, usaved, interactive, hooks>>
+
+------------------------------------------------------------------------------
+(* names: resolution of a spelling against the registry.  SelectorMap.tla shows that the
+   suffix tree implements exactly this (C08_Matching); here it is used declaratively. *)
+SuffixOf(q, n) == Len(q) <= Len(n) /\ SubSeq(n, Len(n) - Len(q) + 1, Len(n)) = q
+MatchSet(K, q) == IF q \in K THEN {q} ELSE { n \in K : SuffixOf(q, n) }
+RegSels == { c.sel : c \in reg }
+\* <<"one", descriptor>> | <<"none">> | <<"ambiguous">>
+ResolveConf(sp) ==
+  LET m == MatchSet(RegSels, sp) IN
+  IF m = {} THEN <<"none">>
+  ELSE IF Cardinality(m) > 1 THEN <<"ambiguous">>
+  ELSE <<"one", CHOOSE c \in reg : c.sel \in m>>
+
+(* values reachable inside a value: _iterate_flattened_values (2695-2709) *)
+RECURSIVE Flatten(_)
+Flatten(v) ==
+  CASE Tag(v) \in {"list", "tuple"} -> {v} \cup UNION { Flatten(v[2][i]) : i \in 1..Len(v[2]) }
+    [] Tag(v) = "dict" -> {v} \cup UNION { Flatten(v[2][i][2]) : i \in 1..Len(v[2]) }
+    [] OTHER -> {v}
+AllValues(cf) == UNION { Flatten(cf[i].val) : i \in 1..Len(cf) }
+
+GinMacroSel == <<"gin", "macro">>
+GinConstSel == <<"gin", "constant">>
+
+\* the three built-in hooks (2847-2883), evaluated on the configuration as parsed
+BuiltinHookVerdict(cf) ==
+  LET vals == AllValues(cf)
+      macroRefs == { v \in vals : Tag(v) = "ref" /\ v[2] = GinMacroSel }
+      keys == { <<cf[i].scope, cf[i].sel>> : i \in 1..Len(cf) }
+  IN IF \E r \in macroRefs : <<r[3], GinMacroSel>> \notin keys THEN "ValueError"      \* referenced, never bound
+     ELSE IF \E r \in macroRefs : r[4] = "bare" THEN "ValueError"                     \* referenced without ()
+     ELSE IF \E v \in vals : Tag(v) = "unk" THEN "ValueError"                         \* unknown configurable
+     ELSE IF \E i \in 1..Len(cf) : cf[i].val = <<"ref", GinConstSel, <<"gin.REQUIRED">>, "call">>
+          THEN "ValueError"                                                          \* still %gin.REQUIRED
+     ELSE "ok"
+
+\* one key returned by a hook: [scope, spelling, param, val] -> verdict and parsed key
+HookKeyVerdict(k) ==
+  LET r == ResolveConf(k.spelling) IN
+  IF r[1] = "none" THEN "ValueError"
+  ELSE IF r[1] = "ambiguous" THEN "KeyError"
+  ELSE IF BindVerdict(r[2], k.param) # "ok" THEN "ValueError"
+  ELSE "ok"
+ParsedKey(k) == [scope |-> k.scope, sel |-> ResolveConf(k.spelling)[2].sel, param |-> k.param]
+
+\* finalize (2643-2675): hooks run in order over the configuration as parsed; results are
+\* collected keyed by parsed key; application only after every hook has succeeded
+RECURSIVE RunHooks(_, _)
+RunHooks(hs, acc) ==      \* acc: set of [key, val]; result: <<status, acc>>
+  IF hs = <<>> THEN <<"ok", acc>>
+  ELSE LET h == Head(hs) IN
+       IF h.raises THEN <<"HookError", acc>>
+       ELSE IF \E k \in h.rets : HookKeyVerdict(k) # "ok"
+            THEN <<HookKeyVerdict(CHOOSE k \in h.rets : HookKeyVerdict(k) # "ok"), acc>>
+       ELSE IF \E k \in h.rets : ParsedKey(k) \in { a.key : a \in acc }
+            THEN <<"ValueError", acc>>                              \* conflicting updates (2667-2669)
+       ELSE RunHooks(Tail(hs), acc \cup { [key |-> ParsedKey(k), val |-> k.val] : k \in h.rets })
+
+RECURSIVE ApplyAll(_, _)
+ApplyAll(cf, upd) ==
+  IF upd = {} THEN cf
+  ELSE LET u == CHOOSE x \in upd : TRUE IN
+       ApplyAll(CfgPut(cf, [scope |-> u.key.scope, sel |-> u.key.sel, param |-> u.key.param, val |-> u.val]),
+                upd \ {u})
+
+Finalize ==
+  /\ "Finalize" \in Enabled
+  /\ Len(stack) = 1                         \* outside any config_scope (see DESIGN.md section 8)
+  /\ IF locked
+     THEN /\ out' = [op |-> "Finalize", status |-> "RuntimeError"]
+          /\ UNCHANGED <<cfg, locked>>
+     ELSE IF BuiltinHookVerdict(cfg) # "ok"
+     THEN /\ out' = [op |-> "Finalize", status |-> BuiltinHookVerdict(cfg)]
+          /\ UNCHANGED <<cfg, locked>>
+     ELSE LET r == RunHooks(hooks, {}) IN
+          IF r[1] # "ok"
+          THEN /\ out' = [op |-> "Finalize", status |-> r[1]]
+               /\ UNCHANGED <<cfg, locked>>
+          ELSE /\ cfg' = ApplyAll(cfg, r[2])
+               /\ locked' = TRUE
+               /\ out' = [op |-> "Finalize", status |-> "ok"]
+  /\ UNCHANGED <<reg, stack, okeys, oper, usaved, interactive, singles, consts, hooks>>
+
+RegisterHook(h) ==
+  /\ "RegisterHook" \in Enabled
+  /\ h \in HookUniverse /\ \A i \in 1..Len(hooks) : hooks[i].id # h.id
+  /\ hooks' = Append(hooks, h)
+  /\ out' = [op |-> "RegisterHook", hook |-> h, status |-> "ok"]
+  /\ UNCHANGED <<reg, cfg, stack, okeys, oper, locked, usaved, interactive, singles, consts>>
+
+\* unlock_config (2601-2621): the block restores the lock state that held on entry
+UnlockEnter ==
+  /\ "Unlock" \in Enabled
+  /\ Len(usaved) < 2
+  /\ usaved' = Append(usaved, locked)
+  /\ locked' = FALSE
+  /\ out' = [op |-> "UnlockEnter", status |-> "ok"]
+  /\ UNCHANGED <<reg, cfg, stack, okeys, oper, interactive, singles, consts, hooks>>
+
+UnlockExit(byException) ==
+  /\ "Unlock" \in Enabled
+  /\ usaved # <<>>
+  /\ locked' = usaved[Len(usaved)]
+  /\ usaved' = SubSeq(usaved, 1, Len(usaved) - 1)
+  /\ out' = [op |-> "UnlockExit", byException |-> byException, status |-> "ok"]
+  /\ UNCHANGED <<reg, cfg, stack, okeys, oper, interactive, singles, consts, hooks>>
+
+\* registering one more (valid, new) configurable: only the lock matters here (1677-1679);
+\* the full validation order of _make_configurable is GinRegister.tla
+Register(c) ==
+  /\ "Register" \in Enabled
+  /\ c \in FreshConfs /\ c \notin reg
+  /\ IF locked
+     THEN /\ out' = [op |-> "Register", conf |-> c, status |-> "RuntimeError"]
+          /\ UNCHANGED reg
+     ELSE /\ reg' = reg \cup {c}
+          /\ out' = [op |-> "Register", conf |-> c, status |-> "ok"]
+  /\ UNCHANGED <<cfg, stack, okeys, oper, locked, usaved, interactive, singles, consts, hooks>>
+
+\* query_parameter (1081-1115) by spelling
+Query(scope, sp, p) ==
+  /\ "Query" \in Enabled
+  /\ LET r == ResolveConf(sp) IN
+     out' = [op |-> "Query", scope |-> scope, spelling |-> sp, param |-> p,
+             status |-> IF r[1] = "none" THEN "ValueError"
+                        ELSE IF r[1] = "ambiguous" THEN "KeyError"
+                        ELSE IF BindVerdict(r[2], p) # "ok" THEN "ValueError"
+                        ELSE IF ~HasKey(cfg, scope, r[2].sel, p) THEN "ValueError"
+                        ELSE "ok",
+             val |-> IF r[1] = "one" /\ HasKey(cfg, scope, r[2].sel, p)
+                     THEN cfg[CHOOSE i \in 1..Len(cfg) : cfg[i].scope = scope /\ cfg[i].sel = r[2].sel /\ cfg[i].param = p].val
+                     ELSE <<"none">>]
+  /\ UNCHANGED <<reg, cfg, stack, okeys, oper, locked, usaved, interactive, singles, consts, hooks>>
+
 
 Next ==
-  \/ \E sc \in ScopePaths, c \in Confs, p \in ParamNames, v \in BindVals : Bind(sc, c, p, v)
+  \/ \E api \in BindApis, sc \in ScopePaths, c \in Confs, p \in ParamNames, v \in BindVals : Bind(api, sc, c, p, v)
   \/ \E how \in {"name", "list", "clear", "invalid"}, comps \in ScopePaths : EnterScope(how, comps)
   \/ \E e \in BOOLEAN : ExitScope(e)
   \/ \E c \in Confs, call \in AllCalls : Call(c, call)
   \/ \E cc \in BOOLEAN : Clear(cc)
+  \/ Finalize
+  \/ \E h \in HookUniverse : RegisterHook(h)
+  \/ UnlockEnter
+  \/ \E e \in BOOLEAN : UnlockExit(e)
+  \/ \E c \in FreshConfs : Register(c)
 
 Spec == Init /\ [][Next]_vars
 
 \* order of bindings is irrelevant when no value holds a reference
-ViewUnordered == <<reg, ToSet(cfg), stack, okeys, oper, locked, usaved, singles, consts, hooks, out>>
+ViewUnordered == <<reg, ToSet(cfg), stack, okeys, oper, locked, usaved, interactive, singles, consts, hooks, out>>
 \* for invariants that quantify over all calls in a state: only the store and the active scope matter
 ViewStore == <<reg, ToSet(cfg), CurScope>>
 
@@ -473,5 +618,131 @@ C01_NoLeak ==
         a == CallW(cfg, MkS({}, {}, {}, <<>>), c, CurScope, call)
         b == CallW(relevant, MkS({}, {}, {}, <<>>), c, CurScope, call)
     IN a.status = b.status /\ a.delivered = b.delivered /\ a.va = b.va /\ a.kw = b.kw
+
+------------------------------------------------------------------------------
+(* C10: REQUIRED parameters *)
+C10_Holds(c, cf, scope, call) ==
+  LET r      == CallW(cf, MkS({}, {}, {}, <<>>), c, scope, call)
+      args   == IF c.kind \in {"cls", "meth"} THEN <<Self>> \o call.pargs ELSE call.pargs
+      sa     == SigArgs(c)
+      nn     == IF Len(args) <= Len(sa) THEN Len(args) ELSE Len(sa)
+      posNames == { sa[i] : i \in 1..nn }
+      posReq == { sa[i] : i \in { j \in 1..nn : IsReq(args[j]) } }
+      vaReq  == \E i \in (nn + 1)..Len(args) : IsReq(args[i])
+      kwReq  == { k \in Dom(call.kw) : IsReq(Get(call.kw, k)) }
+      sigReq == { p \in NamedParams(c) : HasDefault(c, p) /\ IsReq(DefaultOf(c, p))
+                                         /\ p \notin posNames /\ p \notin Dom(call.kw) }
+      R      == posReq \cup kwReq \cup sigReq
+      unfilled == { p \in R : Applicable(cf, c.sel, p, scope) = {} }
+      expectMissing == SelectSeq(SigOrder(c), LAMBDA p : p \in unfilled)
+                       \o SelectSeq(NameOrder, LAMBDA p : p \in unfilled /\ p \notin ToSet(SigOrder(c)))
+      given(p) == IF p \in Dom(r.delivered) THEN Get(r.delivered, p) ELSE Get(r.kw, p)
+  IN IF vaReq THEN r.status = "ValueError" /\ ~r.ran                       \* not allowed for *args
+     ELSE IF unfilled # {}
+     THEN r.status = "RuntimeError" /\ ~r.ran /\ r.missing = expectMissing   \* fails before the body
+     ELSE /\ r.status \in {"ok", "TypeError"}
+          /\ r.status = "ok" =>
+               /\ \A p \in R : given(p) = Longest(Applicable(cf, c.sel, p, scope)).val
+               /\ \A e \in r.delivered \cup r.kw : ~IsReq(e[2])              \* the marker never leaks
+               /\ \A i \in 1..Len(r.va) : ~IsReq(r.va[i])
+
+C10_Required ==
+  \A c \in reg : \A call \in CallSpace(c, 1, TRUE, {"z"}) :
+     C01_CallIsWellFormed(c, call) => C10_Holds(c, cfg, CurScope, call)
+
+\* a signature-level REQUIRED on a denylisted / not allowlisted parameter is rejected at
+\* registration (1195-1210): no such descriptor is ever in the registry
+C10_RegisterReject ==
+  \A c \in reg : \A d \in c.dflt : IsReq(d[2]) => Allowed(c, d[1])
+
+------------------------------------------------------------------------------
+(* C11: only configurable parameters of registered configurables can be bound *)
+C11_StoreValid ==
+  \A i \in 1..Len(cfg) :
+    /\ \E c \in reg : c.sel = cfg[i].sel
+    /\ LET c == ConfBySel(cfg[i].sel) IN MightHave(c, cfg[i].param) /\ Allowed(c, cfg[i].param)
+
+C11_Accept ==
+  out.op = "Bind" /\ ~locked =>
+    LET c == ConfBySel(out.sel) IN
+    (out.status = "ok") <=> (MightHave(c, out.param) /\ Allowed(c, out.param))
+
+\* a rejected binding leaves the configuration exactly as it was
+C11_Atomic ==
+  [][(out'.op = "Bind" /\ out'.status # "ok") =>
+       UNCHANGED <<reg, cfg, stack, okeys, oper, locked, usaved, interactive, singles, consts, hooks>>]_vars
+
+\* a non-configurable parameter is never injected: whatever it receives is the caller's or the default
+C11_NeverInjected ==
+  \A c \in reg : \A call \in CallSpace(c, 0, FALSE, {}) :
+    LET r == CallW(cfg, MkS({}, {}, {}, <<>>), c, CurScope, call) IN
+    r.status = "ok" =>
+      \A p \in NamedParams(c) : ~Allowed(c, p) =>
+         Get(r.delivered, p) = C01_ExpectedNamed(c, <<>>, CurScope, call, p)
+
+------------------------------------------------------------------------------
+(* C12: the lock *)
+Mutating(o) == o.op \in {"Bind", "Register"}
+
+\* while locked every mutating call raises and changes nothing
+C12_Guard ==
+  [][(locked /\ Mutating(out')) => (out'.status = "RuntimeError" /\ cfg' = cfg /\ reg' = reg /\ locked' = locked)]_vars
+
+\* leaving an unlock_config block by either path restores the state saved on entry
+C12_UnlockRestores ==
+  [][(out'.op = "UnlockExit") => (locked' = usaved[Len(usaved)] /\ Len(usaved') = Len(usaved) - 1)]_vars
+
+\* a rejected finalize leaves the configuration unmodified and its lock state unchanged
+C12_FinalizeAtomic ==
+  [][(out'.op = "Finalize" /\ out'.status # "ok") => (cfg' = cfg /\ locked' = locked)]_vars
+
+C12_FinalizeLocks ==
+  [][(out'.op = "Finalize" /\ out'.status = "ok") => (~locked /\ locked')]_vars
+
+C12_Twice ==
+  [][(out'.op = "Finalize" /\ locked) => out'.status = "RuntimeError"]_vars
+
+\* two hooks updating one parameter are rejected however each spells it
+C12_Conflict ==
+  [][(out'.op = "Finalize" /\ out'.status = "ok") =>
+       \A i, j \in 1..Len(hooks) : i # j =>
+          \A a \in hooks[i].rets, b \in hooks[j].rets :
+             ~(HookKeyVerdict(a) = "ok" /\ HookKeyVerdict(b) = "ok" /\ ParsedKey(a) = ParsedKey(b))]_vars
+
+\* the store never holds what finalize rejects once it is locked by finalize
+C12_LockedIsValidated ==
+  (out.op = "Finalize" /\ out.status = "ok") => BuiltinHookVerdict(cfg) = "ok"
+
+------------------------------------------------------------------------------
+(* C20: clear_config *)
+C20_Pristine ==
+  out.op = "Clear" =>
+    /\ out.status = "ok"
+    /\ cfg = <<>> /\ okeys = {} /\ oper = {} /\ singles = {} /\ ~locked
+    /\ (out.clearConstants => consts = {})
+
+C20_KeepsRegistryAndConstants ==
+  [][(out'.op = "Clear") => (reg' = reg /\ (~out'.clearConstants => consts' = consts))]_vars
+
+\* clear_config() is possible in every reachable state
+C20_Succeeds == \A cc \in BOOLEAN : ("Clear" \in Enabled) => ENABLED Clear(cc)
+
+------------------------------------------------------------------------------
+(* C09 (sequential half): scopes nest and are restored on every exit path *)
+C09_StackShape == Len(stack) >= 1 /\ stack[1] = <<>>
+
+C09_Compose ==
+  [][(out'.op = "EnterScope" /\ out'.status = "ok") =>
+       /\ Len(stack') = Len(stack) + 1
+       /\ SubSeq(stack', 1, Len(stack)) = stack
+       /\ CurScope' = (CASE out'.how = "name" -> CurScope \o out'.comps
+                         [] out'.how = "list" -> out'.comps
+                         [] OTHER -> <<>>)]_vars
+
+\* an invalid entry leaves the stack as it was; any exit restores the previous active scope
+C09_Restore ==
+  [][/\ (out'.op = "EnterScope" /\ out'.status # "ok") => stack' = stack
+     /\ (out'.op = "ExitScope") => (stack' = SubSeq(stack, 1, Len(stack) - 1))
+     /\ (out'.op \notin {"EnterScope", "ExitScope"}) => stack' = stack]_vars
 
 =============================================================================
